@@ -181,6 +181,16 @@ func (l *ledger) leaseOf(op wire.OutPoint) (oLease, bool) {
 	return oLease{}, false
 }
 
+// granted: the expiry a lease is granted: now + duration, rounded up to the next whole second (leases have second
+// granularity; the caller is told the rounded instant).
+func granted(now, dur int64) int64 {
+	e := now + dur
+	if r := e - floorDiv(e, 1e9)*1e9; r != 0 {
+		e = (floorDiv(e, 1e9) + 1) * 1e9
+	}
+	return e
+}
+
 func floorDiv(a, b int64) int64 {
 	q := a / b
 	if a%b != 0 && (a < 0) != (b < 0) {
@@ -639,7 +649,7 @@ func (l *ledger) apply(e event) {
 		if ls, ok := l.leaseOf(e.op); ok && ls.id != e.id {
 			return
 		}
-		l.leases[e.op] = oLease{e.id, l.now + e.dur}
+		l.leases[e.op] = oLease{e.id, granted(l.now, e.dur)}
 	case "release":
 		if !l.leasable(e.op) {
 			return
@@ -1112,8 +1122,13 @@ func (r *runner) oracleLock(id uint64, op wire.OutPoint, dur int64, reply string
 			}
 		}
 	case l.leasable(op):
-		if want := fmt.Sprintf("ok %d", l.now+dur); reply != want {
-			v("C12 key=lock-result: LockOutput(%s) returned %q, expected %q", opStr(op), reply, want)
+		if want := fmt.Sprintf("ok %d", granted(l.now, dur)); reply != want {
+			v("C12 key=lock-result: LockOutput(%s) returned %q, expected %q (now %d + duration %d, rounded up to a whole second)", opStr(op), reply, want, l.now, dur)
+		}
+		// independent of the rounding rule: never before now+duration, less than a second after it
+		var got int64
+		if _, err := fmt.Sscanf(reply, "ok %d", &got); err == nil && (got < l.now+dur || got >= l.now+dur+1e9) {
+			v("C12 key=lock-expiry-bounds: LockOutput(%s) at %d for %d ns returned expiry %d", opStr(op), l.now, dur, got)
 		}
 	}
 	return resync
